@@ -15,6 +15,8 @@
 //! values are the model's tags the first four carry the field `v` and the driver's answer `A<shape>:<values>` ties the ELEMENT VALUES too.
 //! Part 2 (round 3): std-trait steps (`u.it_*`, `u.clone*`, `u.re_*`: monitor + native expectation), hidden-state chains + A-B-A re-runs, ranks up to 8 and
 //! long argument lists, huge arrays with a native shape oracle (`native_rec`) validated against the model on every modelled step of the run.
+//! Part 5 (round 5): closures whose answers change between calls (`…|cnt` modelled spellings, `u.st_*` steps), axis lists naming one axis in
+//! both spellings at every pair of positions (`gen_part5`), a few chains above 2^24 elements (`=G` records: no model store entry).
 use arrharness::*;
 use std::any::Any;
 use std::cell::{Cell, RefCell};
@@ -1002,7 +1004,8 @@ impl G {
         let name = label_of(&step).to_string();
         let refs = step_refs(&step);
         let text = if name.starts_with("u.") { let r = record(&o); format!("{}|={}", step, if matches!(r.as_str(), "E" | "P" | "S" | "N") { "N".to_string() } else { ext_field(&r) }) } else { step };
-        let f = FAITHFUL.contains(&name.as_str()) && refs.iter().all(|&r| self.faithful.get(r).copied().unwrap_or(false))
+        // (the lane closure `alt` reverses every other lane, the model's stand-in every lane: same shape, other values)
+        let f = FAITHFUL.contains(&name.as_str()) && !(name == "apply_along_axis" && text.ends_with("|alt")) && refs.iter().all(|&r| self.faithful.get(r).copied().unwrap_or(false))
             && (matches!(&o.v, V::I64(_)) || matches!(&o.v, V::L(l) if l.iter().all(|x| matches!(x, V::I64(_)))));
         self.steps.push(text);
         self.store.push(if o.cls == "ok" { o.v } else { V::Nil });
@@ -1929,7 +1932,7 @@ fn gen_part5(thorough: bool, seed: u64, out: &mut dyn FnMut(String)) {
         emit_chain(&g, out);
     }
     // (xiii) seeded random chains in which the closure-taking steps carry closures with memory and a third of the axis lists name an axis twice
-    let (n_chains, max_len) = if thorough { (12000, 30) } else { (4000, 12) };
+    let (n_chains, max_len) = if thorough { (12000, 30) } else { (3000, 12) };
     let ops = all_ops();
     let closure_ops = ["filter_e", "filter_map_e", "filter", "filter_map", "map", "map_e", "apply_along_axis"];
     let axis_ops = ["transpose", "moveaxis", "flip", "roll", "rot90", "expand_dims", "squeeze", "u.norm"];
@@ -2168,5 +2171,5 @@ fn nontrivial(_op: &str, args: &[&str]) -> bool {
 
 fn main() {
     harness_main(Spec { prop: "C01", gen, exec, nontrivial, hang_secs: 30,
-        rule: "one case = one chain of public operations on earlier results. Enumerated: every operation of the inventory (modelled and `u.` = monitor-only) as a one-step chain on base arrays of every applicable element type and shapes incl. rank 0..4, unit axes, zero-length axes; the refusal stream (new/create/reshape/resize/broadcast_to with non-fitting counts); then seeded random chains (length 1..12 quick, 1..40 thorough) typed so that most steps apply. After EVERY step the real result (each member of a Vec/tuple) is checked: elements.len()==product(shape), len(), ndim(), is_empty() agree. Modelled steps are also compared with the store machine on outcome class and shape (ediff1d / diff / insert with an axis / convolve on value-faithful i64 chains also on the element values; a dedicated stream draws their arguments on every base shape). Robustness streams: every step with a Result-receiver impl is also called on Ok(array) (monitored, same class and shapes required); len/ndim/is_empty/get_shape/get_elements are also asked through Ok(array) for every returned array; option arguments as String / &str / enum; i8 as third byte-sized type; base shapes with zero-length axes in every position and >= 32 elements; refusal stream around zero-length axes; one-step chains on shapes up to 4900 elements; random chains over zero-length / long axes. PART 2: std-trait steps (FromIterator from 29 kinds of exact / over-estimating / unbounded / empty iterators collected three ways, IntoIterator by value and by reference, clone, clone_from through every std path with targets of lower / equal / higher rank, Vec / slice / VecDeque / boxed-slice clone_from between split results, re-entrant closures) with the monitor and a native expectation, on ten element types x 18 base shapes and inside random chains; aliased operands; hidden state: colliding shape groups back to back in both orders through the count-checking constructors / reshapes and 18 further operations, and an A-B-A re-run of every fourth chain's predecessor; ranks 5..8, argument lists of 3..6 unsorted mixed-spelling entries, 65..130 parts, 5..8 arrays; huge arrays (16 384..196 611 elements): linear-model operations as modelled steps, quadratic-model operations as `u.` steps judged by a harness-native shape oracle that the same run validates against the model on every modelled step it speaks about (last case line reports the counts). distinct = distinct chains; non-trivial = some step consumes the result of a step that consumed an earlier result" });
+        rule: "one case = one chain of public operations on earlier results. Enumerated: every operation of the inventory (modelled and `u.` = monitor-only) as a one-step chain on base arrays of every applicable element type and shapes incl. rank 0..4, unit axes, zero-length axes; the refusal stream (new/create/reshape/resize/broadcast_to with non-fitting counts); then seeded random chains (length 1..12 quick, 1..40 thorough) typed so that most steps apply. After EVERY step the real result (each member of a Vec/tuple) is checked: elements.len()==product(shape), len(), ndim(), is_empty() agree. Modelled steps are also compared with the store machine on outcome class and shape (ediff1d / diff / insert with an axis / convolve on value-faithful i64 chains also on the element values; a dedicated stream draws their arguments on every base shape). Robustness streams: every step with a Result-receiver impl is also called on Ok(array) (monitored, same class and shapes required); len/ndim/is_empty/get_shape/get_elements are also asked through Ok(array) for every returned array; option arguments as String / &str / enum; i8 as third byte-sized type; base shapes with zero-length axes in every position and >= 32 elements; refusal stream around zero-length axes; one-step chains on shapes up to 4900 elements; random chains over zero-length / long axes. PART 2: std-trait steps (FromIterator from 29 kinds of exact / over-estimating / unbounded / empty iterators collected three ways, IntoIterator by value and by reference, clone, clone_from through every std path with targets of lower / equal / higher rank, Vec / slice / VecDeque / boxed-slice clone_from between split results, re-entrant closures) with the monitor and a native expectation, on ten element types x 18 base shapes and inside random chains; aliased operands; hidden state: colliding shape groups back to back in both orders through the count-checking constructors / reshapes and 18 further operations, and an A-B-A re-run of every fourth chain's predecessor; ranks 5..8, argument lists of 3..6 unsorted mixed-spelling entries, 65..130 parts, 5..8 arrays; huge arrays (16 384..196 611 elements): linear-model operations as modelled steps, quadratic-model operations as `u.` steps judged by a harness-native shape oracle that the same run validates against the model on every modelled step it speaks about (last case line reports the counts). PART 5: closures with memory (counting, first-k, first-occurrence, budget, run-start, toggle) through every closure-taking operation - as modelled steps (`…|cnt`, lane `alt`: the store machine predicts the shape) and as `u.st_*` steps with a native expectation (one call per element in flat order: shape, elements, number and order of the calls; fold seeds NaN / inf / -0.0; stateful lane closures) on ten element types x 15 base shapes, on the huge arrays and in 3 000 random chains; axis lists that name one axis in both spellings (k and k - rank) at every ordered pair of positions, out-of-range entries next to valid ones and every value -rank-2..=rank+1 of the single-axis arguments, ranks 2..5, transpose / moveaxis / flip / roll / rot90 / expand_dims / squeeze / norm / reductions / scans / sorts; seven chains above 2^24 elements (u8: resize, cycle_take, repeat, zeros / ones / full, new, reshape, ravel, flip, map, filter_e) judged by the monitor and the native shape oracle. distinct = distinct chains; non-trivial = some step consumes the result of a step that consumed an earlier result" });
 }
